@@ -2772,15 +2772,18 @@ class HasTraits(CHasTraits, metaclass=MetaHasTraits):
             return
         locked = info[""]
         locked[name] = None
-        for object, object_name in info[name].values():
-            object = object()
-            if object_name not in object._get_sync_trait_info()[""]:
-                try:
-                    setattr(object, object_name, new)
-                except:
-                    pass
-
-        del locked[name]
+        try:
+            # Iterate over a copy: a handler of a partner may add or remove
+            # a synchronisation while the change is being propagated.
+            for object, object_name in list(info[name].values()):
+                object = object()
+                if object_name not in object._get_sync_trait_info()[""]:
+                    try:
+                        setattr(object, object_name, new)
+                    except:
+                        pass
+        finally:
+            locked.pop(name, None)
 
     def _sync_trait_items_modified(self, object, name, old, event):
         index = event.index
@@ -2792,19 +2795,22 @@ class HasTraits(CHasTraits, metaclass=MetaHasTraits):
             return
         locked = info[""]
         locked[name] = None
-        for object, object_name in info[name].values():
-            object = object()
-            if object_name not in object._get_sync_trait_info()[""]:
-                try:
-                    if index.step is None or event.added:
-                        getattr(object, object_name)[index] = event.added
-                    else:
-                        # Items were deleted through an extended slice.
-                        del getattr(object, object_name)[index]
-                except:
-                    pass
-
-        del locked[name]
+        try:
+            # Iterate over a copy: a handler of a partner may add or remove
+            # a synchronisation while the change is being propagated.
+            for object, object_name in list(info[name].values()):
+                object = object()
+                if object_name not in object._get_sync_trait_info()[""]:
+                    try:
+                        if index.step is None or event.added:
+                            getattr(object, object_name)[index] = event.added
+                        else:
+                            # Items were deleted through an extended slice.
+                            del getattr(object, object_name)[index]
+                    except:
+                        pass
+        finally:
+            locked.pop(name, None)
 
     def _is_list_trait(self, trait_name):
         handler = self.base_trait(trait_name).handler
